@@ -418,7 +418,10 @@ def work(task):
                        preemption_bound=bound, max_executions=cap or budget, cleanup=cleanup, start_stack=start_stack,
                        return_leftover=start_stack is not None)
     viol = []
-    for trace, msg, labels in st.violations:
+    for trace, msg, labels in st.violations[:2]:
+        small = sched.minimize(make, check, trace, K, I, mode == "line", cleanup)
+        if small:
+            trace, msg, labels = small
         nz = sum(1 for c in trace if c)
         key = "cfg=%s schedule=%s" % (cfg_str(cfg), ".".join(map(str, trace)))
         viol.append((key, msg, {"kind": "sched", "cfg": cfg, "timeouts": K, "interrupts": I, "mode": mode,
